@@ -227,4 +227,175 @@ theorem exec_refines (p : Problem) (hI : Inv p) (act : Action) :
         simp only [hb, if_true]
         exact exec_write_plain p hI s hImp' id hs v
 
+/-! ## the invariant is kept by every assignment -/
+
+/-- `Inv` does not mention the heap -/
+theorem Inv_congr (p p' : Problem) (hI : Inv p) (h1 : p'.slot = p.slot) (h2 : p'.next = p.next)
+    (h3 : p'.impKeys = p.impKeys) (h4 : p'.tree = p.tree) : Inv p' := by
+  constructor
+  · intro s s' id; rw [h1]; exact hI.inj s s' id
+  · intro s id; rw [h1, h2]; exact hI.bound s id
+  · intro i a; rw [h1, h3]; exact hI.keys i a
+  · intro s hs; rw [h1, h4]; exact hI.reach s hs
+
+theorem Inv_write (p : Problem) (hI : Inv p) (id : NodeId) (v : Option Val) : Inv (p.write id v) :=
+  Inv_congr p _ hI rfl rfl rfl rfl
+
+/-- a fresh node stored under one importance slot -/
+theorem Inv_alloc (p p1 : Problem) (hI : Inv p) (i : Nat) (part : String)
+    (hslot : p1.slot = upd p.slot (.cellImp i part) (some p.next))
+    (htree : p1.tree = upd p.tree (.cellImp i part) (some p.next))
+    (hnext : p1.next = p.next + 1)
+    (hkeys : ∀ j a, a ∈ p1.impKeys j ↔ (a ∈ p.impKeys j ∨ (j = i ∧ a = part))) : Inv p1 := by
+  have old : ∀ s id, s ≠ .cellImp i part → p1.slot s = some id → p.slot s = some id := by
+    intro s id hs h; rw [hslot] at h; simpa [upd, hs] using h
+  have new : ∀ id, p1.slot (.cellImp i part) = some id → id = p.next := by
+    intro id h; rw [hslot] at h; simp [upd] at h; exact h.symm
+  constructor
+  · intro s s' id h h'
+    by_cases hs : s = .cellImp i part
+    · by_cases hs' : s' = .cellImp i part
+      · left; rw [hs, hs']
+      · exfalso
+        subst hs
+        have := new id h
+        subst this
+        exact Nat.lt_irrefl _ (hI.bound _ _ (old s' _ hs' h'))
+    · by_cases hs' : s' = .cellImp i part
+      · exfalso
+        subst hs'
+        have := new id h'
+        subst this
+        exact Nat.lt_irrefl _ (hI.bound _ _ (old s _ hs h))
+      · exact hI.inj s s' id (old s id hs h) (old s' id hs' h')
+  · intro s id h
+    rw [hnext]
+    by_cases hs : s = .cellImp i part
+    · subst hs; rw [new id h]; exact Nat.lt_succ_self _
+    · exact Nat.lt_succ_of_lt (hI.bound s id (old s id hs h))
+  · intro j a
+    rw [hkeys]
+    by_cases hja : j = i ∧ a = part
+    · obtain ⟨rfl, rfl⟩ := hja
+      simp [hslot, upd]
+    · have hne : Slot.cellImp j a ≠ Slot.cellImp i part := by
+        intro h; cases h; exact hja ⟨rfl, rfl⟩
+      have : p1.slot (.cellImp j a) = p.slot (.cellImp j a) := by rw [hslot]; simp [upd, hne]
+      rw [this, hI.keys j a]
+      simp [hja]
+  · intro s hs
+    rw [hslot, htree]
+    by_cases h : s = .cellImp i part
+    · simp [upd, h]
+    · simp [upd, h, hI.reach s hs]
+
+theorem Inv_setImp (p : Problem) (hI : Inv p) (i : Nat) (part : String) (v : Option Val) :
+    Inv (setImp p i part v) := by
+  cases hs : p.slot (.cellImp i part) with
+  | none =>
+    rw [setImp_none _ _ _ _ hs]
+    apply Inv_write
+    apply Inv_alloc p (impFresh p i part) hI i part rfl rfl rfl
+    intro j a
+    by_cases hj : j = i
+    · subst hj; simp [impFresh, upd]
+    · simp [impFresh, upd, hj]
+  | some id =>
+    by_cases hsh : sharedImp p i part id = true
+    · rw [setImp_shared _ _ _ _ _ hs hsh]
+      apply Inv_write
+      apply Inv_alloc p (impCopy p i part id) hI i part rfl rfl rfl
+      intro j a
+      constructor
+      · intro h; exact Or.inl h
+      · intro h
+        rcases h with h | ⟨rfl, rfl⟩
+        · exact h
+        · exact (hI.keys j a).1 (by simp [hs])
+    · have hns : sharedImp p i part id = false := by simpa using hsh
+      rw [setImp_own _ _ _ _ _ hs hns]
+      exact Inv_write p hI id v
+
+theorem Inv_exec (p : Problem) (hI : Inv p) (act : Action) : Inv (execAction p act) := by
+  cases act with
+  | setField f o => exact Inv_congr p _ hI rfl rfl rfl rfl
+  | write s v =>
+    by_cases hImp : isImp s = true
+    · obtain ⟨i, part, rfl⟩ : ∃ i part, s = .cellImp i part := by
+        cases s <;> simp [isImp] at hImp
+        exact ⟨_, _, rfl⟩
+      exact Inv_setImp p hI i part v
+    · have hImp' : isImp s = false := by simpa using hImp
+      rw [execAction_plain p s hImp']
+      cases p.slot s with
+      | none => exact hI
+      | some id => exact Inv_write p hI id v
+
+theorem Inv_execs (as : List Action) : ∀ (p : Problem), Inv p → Inv (execActions p as) := by
+  induction as with
+  | nil => intro p h; exact h
+  | cons a as ih => intro p h; exact ih _ (Inv_exec p h a)
+
+theorem execs_refine (as : List Action) : ∀ (p : Problem), Inv p →
+    α (execActions p as) = absActions (α p) as := by
+  induction as with
+  | nil => intro p _; rfl
+  | cons a as ih =>
+    intro p h
+    show α (execActions (execAction p a) as) = absActions (absAction (α p) a) as
+    rw [ih _ (Inv_exec p h a), exec_refines p h a]
+
+/-! ## the theorems of the property -/
+
+theorem applyEdit_ok (p p' : Problem) (e : Edit) (h : applyEdit p e = .ok p') :
+    ∃ as, plan p e = .ok as ∧ p' = execActions p as := by
+  unfold applyEdit at h
+  cases hp : plan p e with
+  | error k => rw [hp] at h; cases h
+  | ok as => rw [hp] at h; cases h; exact ⟨as, rfl, rfl⟩
+
+/-- **C03_refines.**  An accepted edit is a list of assignments (the ones its setter makes after its checks), and on
+    the abstract record each of them changes its own quantity and nothing else — although concretely the values
+    live in heap nodes that may be shared (`imp:n,p=1`), are copied on write or are allocated by the edit. -/
+theorem C03_refines (p p' : Problem) (e : Edit) (hI : Inv p) (h : applyEdit p e = .ok p') :
+    ∃ as, plan p e = .ok as ∧ α p' = absActions (α p) as := by
+  obtain ⟨as, hp, rfl⟩ := applyEdit_ok p p' e h
+  exact ⟨as, hp, execs_refine as p hI⟩
+
+/-- **C03_inv_preserved.** -/
+theorem C03_inv_preserved (p p' : Problem) (e : Edit) (hI : Inv p) (h : applyEdit p e = .ok p') : Inv p' := by
+  obtain ⟨as, _, rfl⟩ := applyEdit_ok p p' e h
+  exact Inv_execs as p hI
+
+/-- every step of an accepted history refines its abstract step, from a state that satisfies `Inv` -/
+inductive Trace : Problem → List Edit → Problem → Prop where
+  | nil (p : Problem) : Trace p [] p
+  | cons (p p1 p' : Problem) (e : Edit) (es : List Edit) (as : List Action) :
+      Inv p → plan p e = .ok as → α p1 = absActions (α p) as → Trace p1 es p' → Trace p (e :: es) p'
+
+/-- **C03_history.**  Induction over edit sequences of any length: along an accepted history every state satisfies
+    `Inv` and every step is the abstract step. -/
+theorem C03_history (es : List Edit) : ∀ (p₀ p' : Problem), Inv p₀ → applyEdits p₀ es = .ok p' →
+    Inv p' ∧ Trace p₀ es p' := by
+  induction es with
+  | nil =>
+    intro p₀ p' hI h
+    simp [applyEdits] at h
+    subst h
+    exact ⟨hI, Trace.nil _⟩
+  | cons e es ih =>
+    intro p₀ p' hI h
+    unfold applyEdits at h
+    cases h1 : applyEdit p₀ e with
+    | error k => rw [h1] at h; cases h
+    | ok p1 =>
+      rw [h1] at h
+      have hI1 := C03_inv_preserved p₀ p1 e hI h1
+      obtain ⟨as, hp, hα⟩ := C03_refines p₀ p1 e hI h1
+      obtain ⟨hI', tr⟩ := ih p1 p' hI1 h
+      exact ⟨hI', Trace.cons p₀ p1 p' e es as hI hp hα tr⟩
+
+/-- a rejected edit changes nothing (the model of "every check precedes every assignment") -/
+theorem applyEdits_nil (p : Problem) : applyEdits p [] = .ok p := rfl
+
 end MontePyVerif.Edits
